@@ -78,9 +78,30 @@ func Load(repo, goarch string) (*Program, error) {
 		Env:  env,
 		Fset: fset,
 	}
-	pkgs, err := packages.Load(cfg, ModPath+"/...")
+	patterns := []string{ModPath + "/..."}
+	if goarch != "amd64" {
+		// packages that only build on amd64 (jitdec, x86, native/avx2...) are not part of this
+		// configuration: load what the public packages import, transitively
+		patterns = nil
+		for _, r := range []string{"", "/ast", "/encoder", "/decoder", "/utf8", "/unquote", "/option"} {
+			patterns = append(patterns, ModPath+r)
+		}
+	}
+	pkgs, err := packages.Load(cfg, patterns...)
 	if err != nil {
 		return nil, fmt.Errorf("packages.Load: %w", err)
+	}
+	if goarch != "amd64" {
+		seen := map[string]bool{}
+		var all []*packages.Package
+		packages.Visit(pkgs, func(pk *packages.Package) bool {
+			if !seen[pk.PkgPath] && (pk.PkgPath == ModPath || strings.HasPrefix(pk.PkgPath, ModPath+"/")) {
+				seen[pk.PkgPath] = true
+				all = append(all, pk)
+			}
+			return true
+		}, nil)
+		pkgs = all
 	}
 	p := &Program{Repo: repo, GOARCH: goarch, Fset: fset, ByPath: map[string]*packages.Package{}}
 	var errs []string
@@ -99,7 +120,7 @@ func Load(repo, goarch string) (*Program, error) {
 		}
 		return nil, fmt.Errorf("type/load errors in %s (GOARCH=%s):\n  %s", repo, goarch, strings.Join(errs, "\n  "))
 	}
-	if len(p.Pkgs) < 30 {
+	if len(p.Pkgs) < 20 {
 		return nil, fmt.Errorf("only %d packages loaded from %s (expected >= 30)", len(p.Pkgs), repo)
 	}
 	return p, nil
